@@ -98,9 +98,11 @@ CHECKS = {
     technique='Coq proof (cache soundness invariant over all read histories) + differential correspondence + body-vs-signal oracle'),
  'C14': dict(
     text='Theorems (Coq): first/second/last/rest/length/zip/list/+ on lists/slice/range compute head, tail, length, combine, concatenation, firstn/skipn after clamping, '
-         'the integer interval; arrays are a finite map with textual keys in insertion order after any seta/dela sequence; geta present-or-error. PARTIAL: map/fold/filter/'
-         'reverse/sort/partition and immutability of reachable lists are decided by the differential check against Python sequence operations.' + DIFF,
-    technique='Coq proof (list operator equations, finite-map laws) + differential correspondence + Python sequence oracle'),
+         'the integer interval; arrays are a finite map with textual keys in insertion order after any seta/dela sequence; geta present-or-error; map and fold (MapFold.v, any sub-evaluator): '
+         'if applying the operator/function to an element yields g el with state effect h el, (map f l) is List.map g of the elements in order with the effects composed left to right, '
+         '(fold f a l) is fold_left g; with the real evaluator (fold + a l)/(fold * a l) over integers are the sum/product. PARTIAL: the std.wal functions defined by recursion (filter/'
+         'reverse/sort/partition) and immutability of reachable lists are decided by the differential check against Python sequence operations.' + DIFF,
+    technique='Coq proof (list operator equations, map/fold as List.map/fold_left, finite-map laws) + differential correspondence + Python sequence oracle'),
  'C15': dict(
     text='Theorems (Coq, operands as variables, macro bodies regenerated from the current std.wal each run): ~30 library forms (when, unless, cond, for, for/list, inc, dec, '
          'count, always, timeframe, sum, append, ...) expand exactly to their documented defining expressions with operands unevaluated and placed as shown; gensym names are '
